@@ -26,6 +26,7 @@ type propC04 struct {
 	nFlip int
 	nHdr  int
 	nTgt  int
+	nProd int
 	count int
 	preOK map[int]bool
 }
@@ -36,7 +37,7 @@ func (p *propC04) ID() string     { return "C04" }
 func (p *propC04) Engine() string { return "rx" }
 func (p *propC04) Level() string  { return "fault_enumeration" }
 func (p *propC04) Rule() string {
-	return "enumeration of at-rest flip faults: for every pool file (corpus files and model streams that Decode accepts, output of the real Encode; 12- and 14-byte headers, stored header CRC correct or 0) x every start bit such that the burst avoids header byte 0 and bytes 4-7 x every burst length 1..16 x patterns with first and last bit set (quick: 4 per length; thorough: all 2^(L-2) on files <= 200 B, 16 on the rest, files up to 2100 B), Decode and CheckIntegrity must both reject; plus the header verdict matrix: generated 14-byte headers (random protocol/profile version, stored CRC correct / 0 / one bit off / random) in an otherwise valid file through CheckIntegrity(headerOnly), DecodeHeader, Decode, Header.CheckIntegrity. " +
+	return "enumeration of at-rest flip faults: for every pool file (corpus files and model streams that Decode accepts, output of the real Encode; 12- and 14-byte headers, stored header CRC correct or 0) x every start bit such that the burst avoids header byte 0 and bytes 4-7 x every burst length 1..16 x patterns with first and last bit set (quick: 4 per length; thorough: all 2^(L-2) on files <= 200 B, 16 on the rest, files up to 2100 B), Decode and CheckIntegrity must both reject; plus the header verdict matrix: generated 14-byte headers (random protocol/profile version, stored CRC correct / 0 / one bit off / random) in an otherwise valid file through CheckIntegrity(headerOnly), DecodeHeader, Decode, Header.CheckIntegrity; plus the produced family: model Files (stale header size / CRC fields, 12- and 14-byte headers, both byte orders) through the real Encode - once, twice with the protocol version changed in between, or appended to a non-empty bytes.Buffer - whose output all five integrity APIs must accept. " +
 		"key = (entry point, source kind, structural class of the first flipped bit, burst length); non-trivial when the flipped bits were consumed by the entry point"
 }
 func (p *propC04) Assumptions() []string {
@@ -46,7 +47,7 @@ func (p *propC04) Assumptions() []string {
 	}
 }
 func (p *propC04) ProbeNames() []string {
-	return []string{"burst across header/data boundary", "burst inside stored file CRC", "burst inside stored header CRC", "stored header CRC turned to 0", "header matrix: matching", "header matrix: zero", "header matrix: mismatching", "header matrix: none", "precondition: pool file passes both", "targeted burst: stored CRC forced to a special value"}
+	return []string{"burst across header/data boundary", "burst inside stored file CRC", "burst inside stored header CRC", "stored header CRC turned to 0", "header matrix: matching", "header matrix: zero", "header matrix: mismatching", "header matrix: none", "precondition: pool file passes both", "targeted burst: stored CRC forced to a special value", "file produced by Encode"}
 }
 
 func (p *propC04) Prepare(seed uint64, tier string) int {
@@ -139,7 +140,15 @@ func (p *propC04) Prepare(seed uint64, tier string) int {
 	}
 	// targeted bursts: the ones that turn a stored CRC into a "special" value
 	p.nTgt = len(p.files) * len(c04Targets)
-	p.count = p.nFlip + p.nHdr + p.nTgt
+	// files that the real Encode produced: every integrity API must accept them
+	p.nProd = 6000
+	if base == "thorough" {
+		p.nProd = 300000
+	}
+	if base == "replay" {
+		p.nProd = 0
+	}
+	p.count = p.nFlip + p.nHdr + p.nTgt + p.nProd
 	return p.count
 }
 
@@ -150,6 +159,9 @@ func burstExcluded(bit, l int) bool {
 }
 
 func (p *propC04) Gen(idx int) *Scenario {
+	if idx >= p.nFlip+p.nHdr+p.nTgt {
+		return p.genProduced(idx - p.nFlip - p.nHdr - p.nTgt)
+	}
 	if idx >= p.nFlip+p.nHdr {
 		return p.genTargeted(idx - p.nFlip - p.nHdr)
 	}
@@ -212,6 +224,59 @@ func (p *propC04) Gen(idx int) *Scenario {
 		Tasks: []Task{{ID: 0, Call: "Decode", In: "m0", Read: plan}, {ID: 1, Call: "CheckIntegrity", In: "m0", Read: plan}}}
 }
 
+// genProduced: "a file that Encode produced passes CheckIntegrity" - Files with
+// stale header/CRC fields, 12- and 14-byte headers, both byte orders, encoded
+// once, twice with a header change in between, or behind earlier bytes of a
+// bytes.Buffer.
+func (p *propC04) genProduced(i int) *Scenario {
+	r := NewRng(p.seed, "C04/prod", i)
+	mf := genModelFile(r, MFOpts{InDomain: true, MaxMsgs: r.Range(1, 5), MaxFields: r.Range(1, 6)})
+	t := Task{ID: 0, Call: "Encode", File: mf, Arch: []string{"le", "be"}[i%2]}
+	mode := []string{"once", "twice-header-changed", "appended", "once"}[(i/2)%4]
+	switch mode {
+	case "twice-header-changed":
+		np := byte(0x10)
+		if mf.Proto == 0x10 {
+			np = 0x20
+		}
+		t.Repeat = 2
+		t.Between = "proto:" + itoa(int(np))
+	case "appended":
+		t.Sink = "buffer+"
+	}
+	return &Scenario{V: 1, Property: "C04", Engine: "rx", Family: "produced", Seed: p.seed, Index: p.nFlip + p.nHdr + p.nTgt + i,
+		Params: map[string]string{"mode": mode}, Tasks: []Task{t}}
+}
+
+func (p *propC04) checkProduced(sc *Scenario, st *Stats) []Violation {
+	var vs []Violation
+	if len(sc.Tasks) == 0 || sc.Tasks[0].Call != "Encode" || sc.Tasks[0].File == nil || fileOutOfDomain(sc.Tasks[0].File) {
+		return nil
+	}
+	enc := runTask(&sc.Tasks[0], nil, nil, nil)
+	st.Observe(enc)
+	if enc.BuildErr != "" || enc.Panic != "" || enc.ErrClass != "nil" {
+		return nil // Encode failing on an in-domain File is C05/C06's business
+	}
+	st.Probe("file produced by Encode")
+	st.Nontrivial++
+	hs := "12"
+	if len(enc.Out) > 0 && enc.Out[0] == 14 {
+		hs = "14"
+	}
+	for _, c := range []string{"CheckIntegrity", "CheckIntegrityHeader", "DecodeHeader", "Decode", "HeaderCheckIntegrity"} {
+		r := runTask(&Task{ID: 1, Call: c, In: "m0", Read: planFull()}, map[string][]byte{"m0": enc.Out}, nil, nil)
+		st.Observe(r)
+		st.Key(c, "produced", sc.Params["mode"], hs)
+		if r.Panic != "" {
+			vs = append(vs, Violation{Property: "C04", Class: "C04/produced/" + c + "/panic", Detail: fmt.Sprintf("%s panicked on a file Encode produced (%s): %s", c, sc.Params["mode"], r.Panic)})
+		} else if r.ErrClass != "nil" {
+			vs = append(vs, Violation{Property: "C04", Class: "C04/produced/" + c + "/rejects-encoder-output", Detail: fmt.Sprintf("%s rejects a file Encode produced (%s, %s-byte header): %s", c, sc.Params["mode"], hs, r.Err)})
+		}
+	}
+	return vs
+}
+
 func (p *propC04) genHeader(i int) *Scenario {
 	r := NewRng(p.seed, "C04/hdr", i)
 	ft := supportedFileTypes[r.Intn(len(supportedFileTypes))]
@@ -257,6 +322,9 @@ func (p *propC04) Check(sc *Scenario, st *Stats) []Violation {
 	}
 	if sc.Family == "header" {
 		return p.checkHeader(sc, st)
+	}
+	if sc.Family == "produced" {
+		return p.checkProduced(sc, st)
 	}
 	if len(sc.Media) == 0 || len(sc.Media[0].Flips) != 1 {
 		return nil
